@@ -1,5 +1,6 @@
 import DracoModel.KdTree
 import DracoModel.SeqDecoder
+import DracoModel.KdTreeLegacy
 /-
   The kd-tree point cloud decoder around `DynamicIntegerPointsKdTreeDecoder`:
     compression/point_cloud/point_cloud_kd_tree_decoder.cc   (DecodeGeometryData, CreateAttributesDecoder)
@@ -7,24 +8,13 @@ import DracoModel.SeqDecoder
         PointAttributeVectorOutputIterator, DecodeDataNeededByPortableTransforms,
         TransformAttributesToOriginalFormat, TransformAttributeBackToSignedType)
     compression/attributes/kd_tree_attributes_shared.h
-  Current bitstream (2.3) only; the pre-2.3 layouts (`FloatPointsTreeDecoder`, integer kd-tree
-  inside `DecodeDataNeededByPortableTransforms`) are reported as `.unsupported`.
+  Current bitstream (2.3) here; the pre-2.3 layouts (`FloatPointsTreeDecoder`, integer kd-tree
+  inside `DecodeDataNeededByPortableTransforms`) are in DracoModel/KdTreeLegacy.lean and dispatched
+  to by `decodeKdGeometry`.
 -/
 namespace Draco
 namespace Kd
 open DecM
-
-/-- one `AttributeTuple` of `DecodePortableAttributes` -/
-structure KdAtt where
-  desc : AttDesc
-  /-- 0: UINT8/16/32 decoded in place; 1: INT8/16/32 (`min_signed_values_`);
-      2: FLOAT32 (decoded into a `DT_UINT32` portable attribute) -/
-  kind : Nat
-  /-- `offset_dimensionality` -/
-  offset : Nat
-  /-- `data_size` = `DataTypeLength` of the target attribute -/
-  dataSize : Nat
-deriving Repr
 
 /-- one iteration of the `for i < GetNumAttributes()` loop of `DecodePortableAttributes`:
     `Reset(num_points)` of the attribute (and of the portable attribute of a float attribute),
@@ -48,12 +38,6 @@ def classify (numPoints : Nat) : List AttDesc → Nat → DecM (List KdAtt × Na
     let ka ← classifyOne numPoints d dim
     let r ← classify numPoints ds (dim + d.numComponents)
     pure (ka :: r.1, r.2)
-
-/-- `PointAttributeVectorOutputIterator::operator=(const std::vector<uint32_t>&)` for one
-    attribute: components `offset … offset + num_components` of the point, each cut to
-    `data_size` bytes (`memcpy` of the low bytes; 4-byte types are copied whole) -/
-def attRow (ka : KdAtt) (p : List Nat) : List Nat :=
-  ((p.drop ka.offset).take ka.desc.numComponents).map (· % 2 ^ (8 * ka.dataSize))
 
 /-- quantization parameters of the float attributes / `min_signed_values_` of one attribute -/
 inductive KdTransform where
@@ -170,7 +154,7 @@ def decodePointAttributesKd (opts : DecOpts) (numPoints : Nat) : DecM (List Attr
 /-- `PointCloudKdTreeDecoder`: `DecodeGeometryData` + `DecodePointAttributes` -/
 def decodeKdGeometry (opts : DecOpts) : DecM Geometry := do
   let ver ← version
-  if ver < bsVersion 2 3 then failWith (.unsupported "kd-tree bitstream < 2.3") else
+  if ver < bsVersion 2 3 then decodeKdGeometryLegacy else
   let np ← rdI32
   require (decide (0 ≤ np))
   let numPoints := np.toNat
